@@ -16,8 +16,8 @@ claimed={
              note="List families (mounts, devices, env), annotations, and the composition with the OCI generator are not yet covered. "+TB, ref="5 C03"),
  "C04": dict(text="Deductive proof that the container view shown to later plugins is updated exactly like the reply for the functions under contract.",
              note="Same function set as C03. "+TB, ref="5 C04"),
- "C05": dict(text="Deductive proof of the ledger functions used by the update path (claims per target container id).",
-             note="getContainerUpdate/updateResources/update/response constructors are not yet under contract. "+TB, ref="5 C05"),
+ "C05": dict(text="Deductive proof of the update collection: getContainerUpdate (one entry per target id, self-update during creation rejected, own container kept out of the list), updateResources (every field claimed from the ledger, staged on a copy, committed to the entry and - for the container being updated - to the request only if every claim succeeded; on failure nothing is committed), result.update (an ignore-failure update never fails the request; the collected state stays well formed), the three response constructors (own entry appended last) and the collect* constructors (normalised request, empty collection).",
+             note="result.apply/adjust are still used through a trusted write-set frame by the request loops, so the preconditions of result.update (a plugin's update shares no object with the collected state) are assumed there, not proved. Claims of a conflicting ignore-failure update stay in the ledger (observation, DESIGN.md). "+TB, ref="5 C05"),
  "C14": dict(text="Deductive proof of the optional-value constructors String/Int32/UInt32/Int64/UInt64/Bool: nil maps to unset, a value of the wrapper's own type to exactly that value in a fresh wrapper.",
              note="OCI round trips, Copy, event-mask print/parse not yet covered. "+TB, ref="5 C14"),
 }
@@ -39,7 +39,15 @@ claimed.update({
  "C19": dict(text="Deductive proof that an unsolicited update reaches the runtime's update callback exactly once, with the plugin's list, under the adaptation lock (the same lock that serialises all requests), that results are passed back unchanged, and that an unstarted stub returns ErrNoService without calling the runtime.",
              note="Mutual exclusion follows from sync.Mutex semantics (trusted). "+TB, ref="5 C19"),
 })
+claimed.update({
+ "C20": dict(text="Deductive proof, for every annotation map and container name, of the two sample plugins' request handlers: device-injector picks the container-scoped key before the pod-scoped before the bare key by presence (getAnnotation), decodes exactly that annotation, converts every decoded device/mount/CDI name field by field into the adjustment in order, and returns no adjustment at all when any decoding fails; ulimit-adjuster looks at the container-scoped key only, normalises each type as RLIMIT_+TrimPrefix(ToUpper(t)), fails the request for an unknown type or hard<soft, and otherwise emits exactly one rlimit per decoded entry with its limits. The adjustment builders of pkg/api they use are proved too.",
+             note="The YAML decoder is modelled as an unknown deterministic library: it stores an arbitrary well-formed value and an arbitrary error (assumption listed in the evidence); strings.ToUpper is an uninterpreted function; the path from the handler through the stub and ttrpc is covered by C15, not here. "+TB, ref="5 C20"),
+})
 na_reason={
+ "C08": "the property is about interleavings of concurrent registrations and creations under an RW lock; function contracts over sequential code cannot express 'for every schedule' (DESIGN.md section 5, C08). The lock discipline of the sequential pieces is covered under C06/C19.",
+ "C13": "not yet built: the functions delegate to the external opencontainers generator; see DESIGN.md section 5, C13 for what is planned/possible",
+ "C16": "termination within bounded time under connection loss at any byte offset, and late asynchronous notifications, are schedule/fault-sequence properties; no function contract within reach decides them (DESIGN.md section 5, C16)",
+ "C18": "process launch, descriptor inheritance and reaping are operating-system effects outside any contract on Go code in /repo; the index/name parsing part is proved under C17 (CheckPluginIndex) (DESIGN.md section 5, C18)",
  "C12": "one of the two codecs is protobuf-go's reflection runtime (no code in /repo to put a contract on); the generated vtproto code needs induction over a recursive wire format that the installed solvers return unknown on (DESIGN.md section 5, C12)",
 }
 checks=[]
@@ -55,7 +63,7 @@ for i in ids:
           "level_claimed":{"category":"proof","text":c['text'],"design_ref":c['ref']},
           "level_note":c['note'],
           "technique":"contract-based deductive verification: weakest-precondition/symbolic-execution VCs over go/ssa of the real functions, contracts in build-tag-guarded comment files, discharged by z3/cvc5"})
-na=[{"property_id":i,"reason":na_reason.get(i,"no check built yet for this property (see DESIGN.md status table)")} for i in ids if i not in claimed]
+na=[{"property_id":i,"reason":na_reason.get(i,"no check built for this property (see DESIGN.md status table)")} for i in ids if i not in claimed]
 m={"version":1,
  "setup_cmd":"GOFLAGS=-mod=mod GOPROXY=off GOSUMDB=off GOTOOLCHAIN=local go build -o bin/nriverif ./cmd/nriverif",
  "hooks":{"guard":"verif","enable":"contract files pkg/*/contracts_verif.go carry //go:build verif; the engine loads /repo with -tags=verif",
